@@ -146,6 +146,26 @@ fn matrix_sites() -> Vec<MatrixSite> {
         ] {
             v.push(MatrixSite { src: s(form), class: "never_failing_sites", ok: [true; 4], out });
         }
+        // truth tests whose result goes to a consumer that takes an undefined without complaint: the
+        // test itself is the failing site under Strict, whoever looks at the result afterwards
+        for (t, val) in [("U and 1", None), ("U and U", None), ("(U and 1) and 2", None), ("U or 1", Some("1")), ("not U", Some("True")), ("(5 if U else 2)", Some("2")), ("U and 1 or 7", Some("7")), ("(U or U) or 4", Some("4"))] {
+            let consumers: [(&str, String); 9] = [
+                ("{% set v = T %}done", "done".to_string()),
+                ("{% with v = T %}x{% endwith %}", "x".to_string()),
+                ("{{ (T)|default('d') }}", val.unwrap_or("d").to_string()),
+                ("{{ (T) is defined }}", if val.is_some() { "True" } else { "False" }.to_string()),
+                ("{{ [T]|length }}", "1".to_string()),
+                ("{{ {'k': T}|length }}", "1".to_string()),
+                ("{{ ((T), 2)|length }}", "2".to_string()),
+                ("{% macro f(a) %}[{{ a is defined }}]{% endmacro %}{{ f(T) }}", if val.is_some() { "[True]" } else { "[False]" }.to_string()),
+                // (an undefined argument selects the parameter's default)
+                ("{% macro f(a=3) %}[{{ a is defined }}]{% endmacro %}{{ f(a=T) }}", "[True]".to_string()),
+            ];
+            for (c, out) in consumers {
+                let out: &'static str = Box::leak(out.into_boxed_str());
+                v.push(MatrixSite { src: s(&c.replace('T', t)), class: "truth_test_feeding_tolerant_consumer", ok: [false, true, true, true], out });
+            }
+        }
         v.push(MatrixSite { src: s("{% set q = U %}{{ q is defined }}"), class: "assign_then_is_defined", ok: [true; 4], out: "False" });
         v.push(MatrixSite { src: s("{% if U is defined %}a{% else %}b{% endif %}"), class: "is_defined", ok: [true; 4], out: "b" });
     }
